@@ -538,3 +538,154 @@ def run_lits(ctx):
               lit_model_disagreements=len(bad), lit_seconds=round(time.time() - t0, 1))
     ctx.assume("C18 literals: the element type of a value whose type the builder does not know at construction time is the one the trace "
                "generator declares (checked by the onnxruntime oracle of run_traces on the same generator)")
+
+
+# --------------------------------------------------------------------------- mixed-type list literals (unbound positions)
+
+def _mixed_lists(rng, n_random):
+    """List / tuple literals mixing Python ints, floats and bools: int-first, float-first, bool-first."""
+    out = [[2, 0.5], [1, 2.5], [3, 0.5], [0.5, 2], [2, 0.5, 3], [0, 0.25], (2, 0.5), [1, 1.5, 2, 2.5], [2.0, 3], [True, 0.5], [2, True, 0.5]]
+    for _ in range(n_random):
+        k = rng.choice([2, 2, 3, 4])
+        l = [rng.choice([rng.randrange(0, 5), rng.choice([0.5, 1.5, 0.25, 2.5, 3.0])]) for _ in range(k)]
+        if all(isinstance(v, int) for v in l):
+            l[rng.randrange(1, k)] = rng.choice([0.5, 1.5, 0.25])
+        if all(isinstance(v, float) for v in l):
+            l[rng.randrange(k)] = rng.randrange(0, 5)
+        if rng.random() < 0.5 and not isinstance(l[0], int):         # int first: the dtype may not come from element 0
+            j = next(i for i, v in enumerate(l) if isinstance(v, int))
+            l[0], l[j] = l[j], l[0]
+        out.append(tuple(l) if rng.random() < 0.15 else l)
+    return out
+
+
+def _build_mixed(kind, lit, lit2):
+    """One small model on the real GraphBuilder with a mixed list literal in an operand position that no tensor of
+    known dtype binds.  -> (proto, feeds, expected outputs by NumPy, [(op, args spec, node)])"""
+    import onnx_ir as ir
+    from onnxscript._internal import builder as B
+
+    n = len(lit)
+    g = ir.Graph(name="g", inputs=[], outputs=[], nodes=[], opset_imports={"": TR.OPSET})
+    gb = B.GraphBuilder(g)
+    op = gb.op
+    rs = np.random.RandomState(n * 7 + 3)
+    x_np = (rs.randint(1, 9, size=(n,)) * 0.5 + 0.5).astype(np.float64)
+    la = np.array(list(lit), dtype=np.float64)
+    calls = []
+    if kind == "pow-exponent":              # Pow: the exponent has its own type variable T1
+        x = gb.input("x", dtype=ir.DataType.DOUBLE, shape=[n])
+        y = op.Pow(x, lit)
+        calls.append(("Pow", [("v", 0, 11, True), ("lit", lit)], y.producer()))
+        want = [np.power(x_np, la)]
+        feeds = {"x": x_np}
+    elif kind == "all-literals":            # nothing binds T
+        l2 = [3 + (len(lit2) % 2)] + [0.5 + i for i in range(n - 1)]      # mixed too (int first): both operands double
+        y0 = op.Mul(lit, l2)
+        calls.append(("Mul", [("lit", lit), ("lit", l2)], y0.producer()))
+        y = op.Add(op.Cast(y0, to=ir.DataType.DOUBLE), gb.input("x", dtype=ir.DataType.DOUBLE, shape=[n]))
+        want = [la * np.array(l2, dtype=np.float64) + x_np]
+        feeds = {"x": x_np}
+    else:                                   # next to a value whose dtype the builder does not know: CastLike(constant, like)
+        x = gb.input("x", dtype=None, shape=None)
+        y = op.Add(x, lit) if kind == "unknown-sibling-add" else op.Mul(lit, x)
+        calls.append(("Add" if kind == "unknown-sibling-add" else "Mul",
+                      [("v", 0, 11, False), ("lit", lit)] if kind == "unknown-sibling-add" else [("lit", lit), ("v", 0, 11, False)], y.producer()))
+        x.type = ir.TensorType(ir.DataType.DOUBLE)
+        x.shape = ir.Shape([n])
+        want = [x_np + la if kind == "unknown-sibling-add" else la * x_np]
+        feeds = {"x": x_np}
+    if y.type is None:
+        y.type = ir.TensorType(ir.DataType.DOUBLE)
+    if y.shape is None:
+        y.shape = ir.Shape([n])
+    g.outputs.append(y)
+    proto = ir.serde.serialize_model(ir.Model(g, ir_version=10))
+    return proto, feeds, want, calls, x if kind.startswith("unknown") else None
+
+
+def run_mixed_lists(ctx):
+    """Seeded change C18-5 class: a list literal mixing ints and floats in a position no typed tensor binds must become
+    a constant of the dtype C12's specification derives (numpy's inference over ALL elements, not the first one) holding
+    the literal's values; the model must compute the traced call (onnxruntime vs NumPy)."""
+    rng = ctx.rng
+    lists = _mixed_lists(rng, 12 if ctx.tier == "quick" else 150)
+    kinds = ["pow-exponent", "all-literals", "unknown-sibling-add", "unknown-sibling-mul"]
+    cases, meta = [], []
+    n_run = 0
+    for li, lit in enumerate(lists):
+        for kind in kinds:
+            nviol = len(ctx.violations) + len(ctx.known_hits)
+            lit2 = lists[(li + 3) % len(lists)]
+            first = "bool" if isinstance(lit[0], bool) else "int" if isinstance(lit[0], int) else "float"
+            ctx.case(("mixed-list", kind, first, len(lit), type(lit).__name__))
+            doc = {"kind": kind, "literal": repr(lit), "second": repr(lit2)}
+            try:
+                proto, feeds, want, calls, unk = _build_mixed(kind, lit, lit2)
+            except Exception as e:  # noqa: BLE001
+                ctx.violation("C18:literal:mixed-list:builder-raises", f"{kind} with {lit!r}: {type(e).__name__}: {str(e)[:200]}", doc)
+                continue
+            # the constants: values = the literal, dtype = numpy's inference over all elements
+            for (opname, spec, node) in calls:
+                targs, obs = [], []
+                for i, a in enumerate(spec):
+                    got = node.inputs[i]
+                    if a[0] == "v":
+                        targs.append(f"(TVal {cnat(a[1])} {a[2]}%N {'true' if a[3] else 'false'})")
+                        obs.append(f"(OVal {cnat(a[1])})")
+                        continue
+                    value = a[1]
+                    const, like = got, None
+                    p = got.producer() if got is not None else None
+                    if p is not None and p.op_type == "CastLike":
+                        const, like = p.inputs[0], 0
+                    arr = const.const_value.numpy() if const is not None and const.const_value is not None else None
+                    expect = np.array(list(value))
+                    if arr is None or arr.dtype != expect.dtype or arr.shape != expect.shape or not np.array_equal(arr, expect):
+                        ctx.violation("C18:literal:mixed-list:constant-differs-from-literal",
+                                      f"{kind}: the list literal {value!r} became the constant "
+                                      f"{None if arr is None else (str(arr.dtype), arr.tolist())}; the literal denotes {(str(expect.dtype), expect.tolist())}",
+                                      dict(doc, constant=None if arr is None else arr.tolist()))
+                    if arr is None:
+                        continue
+                    payload = f"{arr.shape}:{arr.tobytes().hex()}"
+                    nm = f"(LNFixed {cstr(const.name)})"
+                    targs.append(f"(TLit (TL {C12.c_literal(list(value))} {cstr(const.name)} {nm} {cstr(payload)}))")
+                    litc = f"(Lit {cstr(const.name)} {nm} {cstr(str(arr.dtype) + ':' + payload)})"
+                    obs.append(f"(OLit {litc})" if like is None else f"(OLitCast {litc} {cnat(like)})")
+                if len(targs) == len(spec):
+                    schema = TR._schema(opname)
+                    cases.append(f"({cstr(opname)}, {schema.since_version}%N, {clist(targs)}, {clist(obs)})")
+                    meta.append((kind, lit, nviol))
+            # the property itself
+            try:
+                got = TR.ort_session(proto).run(None, feeds)
+                n_run += 1
+            except Exception as e:  # noqa: BLE001
+                ctx.violation("C18:valid:onnxruntime-rejects", f"mixed list {lit!r} ({kind}): {str(e)[:300]}", doc)
+                continue
+            for j, (a, b) in enumerate(zip(got, want)):
+                if np.asarray(a).shape != np.asarray(b).shape or not np.allclose(a, b, rtol=1e-9, atol=1e-12):
+                    ctx.violation("C18:semantics:onnxruntime-differs-from-numpy-replay:mixed-list-literal",
+                                  f"{kind} with {lit!r}: the model gives {np.asarray(a).ravel()[:4].tolist()}, the NumPy reading of the call "
+                                  f"{np.asarray(b).ravel()[:4].tolist()}", doc)
+                    break
+    bad = []
+    if cases:
+        okc, vals, raw = ctx.coq_eval(REQ, f"Definition cases : list lit_case := {clist(cases)}.\n"
+                                           f"Eval vm_compute in (lits_disagreeing {common.cbool(NAMED[0])} {TR.OPSET}%N 0 cases).\n")
+        if not okc or not vals:
+            ctx.tie_broken("correspondence", "modelC:mixed-list-dtype:evaluation", raw[-1200:])
+        else:
+            bad = [meta[j] for j in common.parse_nat_list(vals[0])]
+    viol_marks = sorted({m[2] for m in meta})
+    for (kind, lit, mark) in bad[:3]:
+        nxt = next((x for x in viol_marks if x > mark), len(ctx.violations) + len(ctx.known_hits))
+        if nxt > mark:          # the direct oracle already reported this call with its input
+            continue
+        ctx.tie_broken("correspondence", "modelC:mixed-list-dtype", f"{kind} with {lit!r}: the constant's element type / operand kind on the real builder is not "
+                       "the one TraceLit.promote_call derives from C12's promote_builder, although its values equal the literal and onnxruntime agrees with NumPy")
+    ctx.obligation("mixed-type list literals (int-first, float-first, bool-first; Pow exponent, all-literal Mul, CastLike beside a value of unknown dtype): "
+                   "constant dtype and operand kind = TraceLit.promote_call (C12 promote_builder), constant values = the literal, onnxruntime = NumPy",
+                   not bad, f"{len(bad)} disagreements of {len(cases)} calls")
+    ctx.cover(mixed_list_literals=len(lists), mixed_list_calls=len(cases), mixed_list_models_run=n_run)
